@@ -15,11 +15,12 @@ def words(L):
     return WORDS[key]
 
 
-def check(acc, spec, L):
+def check(acc, spec, L, share=False):
     from gambatools.regexp_algorithms import regexp_accepts_word, regexp_simplify, regexp_size
     rp = {'fn': 'mc.props.c05:one', 'mode': 'plain', 'params': {'spec': spec, 'L': L, 'sigma': list(SIGMA)}}
-    inst = {'regexp': rx.show(spec)}
-    r = rx.to_lib(spec)
+    inst = {'regexp': rx.show(spec), 'shared_subterms': share}
+    r = rx.to_lib(spec, {} if share else None)
+    rp['params']['share'] = share
     acc.states += 1
     nacc = 0
     for w in words(L):
@@ -62,20 +63,20 @@ def check(acc, spec, L):
             acc.c['simplify_changed_something'] += 1
 
 
-def one(acc, spec, L, sigma=('a', 'b')):
+def one(acc, spec, L, sigma=('a', 'b'), share=False):
     def tup(x):
         return tuple(tup(y) for y in x) if isinstance(x, list) else x
     SIGMA[:] = list(sigma)
-    check(acc, tup(spec), L)
+    check(acc, tup(spec), L, share)
     SIGMA[:] = ['a', 'b']
 
 
-def t_space(acc, m, L, shard, nshard, lo=0, digits=False):
+def t_space(acc, m, L, shard, nshard, lo=0, digits=False, share=False, multi=False):
     SIGMA[:] = ['0', '1'] if digits else ['a', 'b']
-    leaves = ('0', '1', 's0', 's1') if digits else ('0', '1', 'a', 'b')
+    leaves = ('0', '1', 's0', 's1') if digits else (('0', '1', 'a', 'sab', 'sba') if multi else ('0', '1', 'a', 'b'))
     for idx, spec in rx.trees_up_to(m, leaves):
         if idx % nshard == shard and rx.nodes(spec) > lo:
-            check(acc, spec, L)
+            check(acc, spec, L, share)
     SIGMA[:] = ['a', 'b']
 
 
@@ -87,7 +88,10 @@ def plan(tier, seed):
         tasks += [('plain', 'mc.props.c05:t_space', {'m': 6, 'L': 4, 'shard': s, 'nshard': 16, 'lo': 5}) for s in range(16)]
         tasks += [('plain', 'mc.props.c05:t_space', {'m': 5, 'L': 4, 'shard': s, 'nshard': 4, 'digits': True}) for s in range(4)]
         tasks += [('plain', 'mc.props.c05:t_space', {'m': 7, 'L': 3, 'shard': s, 'nshard': 32, 'lo': 6}) for s in range(32)]
-        bounds = 'RE(5) x words <= 6; RE(6) x words <= 4; RE(7) x words <= 3; RE(5) over the digit symbols 0,1 (which print like the constants) x words <= 4'
+        tasks += [('plain', 'mc.props.c05:t_space', {'m': 8, 'L': 3, 'shard': s, 'nshard': 64, 'lo': 7}) for s in range(64)]
+        tasks += [('plain', 'mc.props.c05:t_space', {'m': 6, 'L': 3, 'shard': s, 'nshard': 8, 'share': True}) for s in range(8)]
+        tasks += [('plain', 'mc.props.c05:t_space', {'m': 5, 'L': 4, 'shard': s, 'nshard': 4, 'multi': True}) for s in range(4)]
+        bounds = 'RE(5) x words <= 6; RE(6) x words <= 4; RE(7), RE(8) x words <= 3; RE(6) with equal subterms shared as one node object (DAG); RE(5) with the two-character symbols ab, ba; RE(5) over the digit symbols 0,1 (which print like the constants) x words <= 4'
     else:
         tasks += [('plain', 'mc.props.c05:t_space', {'m': 6, 'L': 6, 'shard': s, 'nshard': 16}) for s in range(16)]
         tasks += [('plain', 'mc.props.c05:t_space', {'m': 7, 'L': 4, 'shard': s, 'nshard': 64, 'lo': 6}) for s in range(64)]
@@ -96,4 +100,4 @@ def plan(tier, seed):
         bounds = 'RE(6) x words <= 6; RE(7) x words <= 4; RE(8) x words <= 3; RE(6) over the digit symbols 0,1 x words <= 4'
     return {'tasks': tasks, 'bounds': {'spaces': bounds}, 'exhaustive': True,
             'rule': 'every expression tree with <= m nodes over leaves 0,1,a,b and operators *,+,. x every word over {a,b} up to L (matcher vs Brzozowski derivatives); simplifier vs exact Glushkov equivalence; non-trivial = accepts some but not all tested words',
-            'assumptions': ['symbols are single characters']}
+            'assumptions': ['symbols are single characters or identifiers (ab, ba); a word is a string']}
